@@ -331,7 +331,7 @@ def rule_cancel(ctx, lc):
                     ok, why = False, 'the handler can return on shutdown without the safe flush'
                 else:
                     before += [st_ for st_ in evs[:evs.index(fl_stmt)] if st_ not in before]
-                if len([c for c in pth.conds if isinstance(c[0], ast.expr)]) != 1:
+                if len(pth.decisions()) != 1:
                     ok, why = False, f'the safe flush depends on more than the shutdown request: {pth.cond_texts()}'
             elif pth.exit == 'return':
                 ok, why = False, 'the handler returns although no shutdown was requested'
@@ -364,7 +364,7 @@ def rule_cancel(ctx, lc):
         for pth in P.paths(fis.node.body):
             okv = P.truthy(pth, 'self.ok')
             has = any(st_ is fls for st_, _e in pth.events)
-            if okv is None or len([c for c in pth.conds if isinstance(c[0], ast.expr)]) != 1:
+            if okv is None or len(pth.decisions()) != 1:
                 good = False
             elif okv and not has and pth.exit != 'raise':
                 skipped = True
